@@ -156,6 +156,14 @@ from harness import common; common.use_repo()
 from harness import sweep
 out = {}
 rng = random.Random(%(seed)d)
+# an application-installed text encoder (the public hook for colouring values): it must stay installed and be applied to every
+# object, whichever objects were serialised before
+from cryptoparser.common.base import Serializable
+class TickEncoder(object):
+    def __call__(self, obj, level):
+        return False, '`%%s`' %% (obj if isinstance(obj, str) else str(obj))
+tick = TickEncoder()
+Serializable.post_text_encoder = tick
 items = sorted(sweep.library_vectors().items(), key=lambda kv: sweep.qualname(kv[0]))
 if %(shuffle)d:
     rng.shuffle(items)
@@ -188,6 +196,7 @@ for k in (2, 3, len(flags)):
             perms.setdefault(','.join(sorted(f.name for f in combo)), []).append([rec.as_json(), rec.as_markdown()])
 perms = list(perms.values())
 out['__dnskey_flag_permutations__'] = perms
+out['__encoder_kept__'] = Serializable.post_text_encoder is tick
 print(json.dumps(out))
 '''
 
@@ -251,6 +260,11 @@ def run(chk):
                 chk.violation('output of %s depends on PYTHONHASHSEED / on which objects were serialised before (seed %d vs %d)' % (k, seed, seeds[0]),
                               {'case': k, 'seeds': [seeds[0], seed], 'predicate': 'hash-seed'}, '%s/hash-seed' % k.split('/')[0], True)
                 break
+    for seed in seeds:
+        if not sw[seed].get('__encoder_kept__', True):
+            chk.violation('the text encoder an application installed (Serializable.post_text_encoder) was replaced while objects were serialised: '
+                          'Markdown output depends on which objects were serialised before', {'predicate': 'encoder-kept', 'seed': seed}, 'Serializable/encoder-kept', True)
+            break
     for seed in seeds:
         perms = sw[seed]['__dnskey_flag_permutations__']
         if any(p != group[0] for group in perms for p in group):
